@@ -337,6 +337,29 @@ def run(ctx: Ctx):
     finally:
         BASE = base0
 
+    # ------------------------------------------------------------- a start in a repeated hour (fold=1), nothing else set
+    # "a component with only a start ends ... at the start itself if it is a date-time": the same instant, not the
+    # earlier occurrence of the same wall time (date-time arithmetic resets fold to 0)
+    import dateutil.tz as _dtz
+    for tzobj in (ZoneInfo("Europe/Berlin"), ZoneInfo("America/New_York"), _dtz.gettz("Europe/Berlin")):
+        for wall in (datetime(2024, 10, 27, 2, 30), datetime(2024, 11, 3, 1, 30), datetime(2024, 10, 27, 2, 0)):
+            for fold in (0, 1):
+                dt = wall.replace(tzinfo=tzobj, fold=fold)
+                for cls in (Event, Todo):
+                    c = cls()
+                    c.start = dt
+                    ctx.evaluations += 1
+                    ctx.case(("fold", repr(tzobj), wall.isoformat(), fold, cls.__name__), True)
+                    try:
+                        end, dur = c.end, c.duration
+                        ok = end.replace(tzinfo=None) == wall and end.utcoffset() == dt.utcoffset() and dur == timedelta(0) and \
+                            c.start.utcoffset() == dt.utcoffset()
+                        obs = [repr(end), repr(end.utcoffset()), repr(dur)]
+                    except Exception as e:   # noqa: BLE001
+                        ok, obs = False, type(e).__name__
+                    if not ok:
+                        ctx.fail("P:C16:identities", {"cls": cls.__name__, "start_only": repr(dt), "fold": fold}, obs, [repr(dt), repr(dt.utcoffset())])
+
     # ------------------------------------------------------------- RECORD: arbitrary times
     nseq = 60 if ctx.quick else 600
     kinds = ["date", "naive", "utc", "zoned"]
